@@ -29,4 +29,12 @@ pub broadcast proof fn lemma_mul_sign(x: int, y: int)
     assert((x >= 0 && y >= 0 ==> x * y >= 0) && (x <= 0 && y <= 0 ==> x * y >= 0) && (x >= 0 && y <= 0 ==> x * y <= 0) && (x <= 0 && y >= 0 ==> x * y <= 0)
       && (x >= 1 && y >= 1 ==> x * y >= 1) && (x <= -1 && y <= -1 ==> x * y >= 1) && (x >= 1 && y <= -1 ==> x * y <= -1) && (x <= -1 && y >= 1 ==> x * y <= -1) && (x == 0 || y == 0 ==> x * y == 0)) by(nonlinear_arith);
 }
+// the product of two i32 values fits comfortably in an i64
+pub broadcast proof fn lemma_i32_product_fits_i64(x: int, y: int)
+    requires -0x8000_0000 <= x <= 0x7fff_ffff, -0x8000_0000 <= y <= 0x7fff_ffff
+    ensures #![trigger x * y] -0x4000_0000_0000_0000 <= x * y <= 0x4000_0000_0000_0000
+{
+    assert(-0x4000_0000_0000_0000 <= x * y <= 0x4000_0000_0000_0000) by(nonlinear_arith)
+        requires -0x8000_0000 <= x <= 0x7fff_ffff, -0x8000_0000 <= y <= 0x7fff_ffff;
+}
 }
